@@ -498,6 +498,10 @@ class Generator(AbstractODSGenerator):
         transaction_sheet_name: str = self.get_in_out_sheet_name(asset)
         output_sheet_name: str = self.get_tax_sheet_name(asset)
 
+        # Transactions are identified by their row in the input sheet of their asset, so the transaction-to-row mapping of the assets
+        # that were generated before this one must not be looked up while generating the sheets of this asset.
+        self.__in_out_sheet_transaction_2_row = {}
+
         transaction_sheet: Any = ezodf.Table(transaction_sheet_name)
         output_sheet: Any = ezodf.Table(output_sheet_name)
         summary_sheet: Any = output_file.sheets["Summary"]
